@@ -26,119 +26,126 @@ def defaultGroups : List Group :=
 /-- `c3d::c3d()` -/
 def C3D.init : C3D := { groups := defaultGroups }
 
-/-- `c3d::updateHeader()` (ezc3d.cpp:417-456). "Parameters win over the header." -/
-def updateHeader (F : FloatOps) (s : C3D) : Outcome C3D :=
-  (float0 s.groups POINT RATE).andThen s fun pointRate =>
-  let h1 := if F.rateKey pointRate ≠ F.rateKey s.hdr.rate then { s.hdr with rate := pointRate } else s.hdr
-  let s1 := { s with hdr := h1 }
-  (int0 s.groups POINT USED).andThen s1 fun used =>
+/-- Lift a computation on one component of the object to the whole object: on success and on a
+    throw the other components are, by construction, untouched. -/
+def Outcome.lift (o : Outcome α) (f : α → σ) : Outcome σ :=
+  match o with
+  | .ok a => .ok (f a)
+  | .throw e a => .throw e (f a)
+  | .ub k => .ub k
+
+/-- sub-frame count from the rate ratio (ezc3d.cpp:438-447), used when the data cannot tell -/
+def subFromRates (F : FloatOps) (gs : List Group) (pointRate : UInt32) (h : Header) : Outcome Header :=
+  (byName Group.name gs ANALOG).andThen h fun ga =>
+  if ga.params.length ≠ 0 then
+    if F.truncNat pointRate = 0 then
+      .ok (if h.nbAnalogByFrame ≠ 1 then h.setNbAnalogByFrame 1 else h)
+    else
+      (float0 gs ANALOG RATE).andThen h fun ar =>
+      .ok (if F.ratioNat ar pointRate ≠ h.nbAnalogByFrame then h.setNbAnalogByFrame (F.ratioNat ar pointRate) else h)
+  else .ok h
+
+/-- `c3d::updateHeader()` (ezc3d.cpp:417-456) as a function of the parameters, the stored frames and
+    the current header. "Parameters win over the header." -/
+def updateHeaderH (F : FloatOps) (gs : List Group) (frames : List Frame) (h : Header) : Outcome Header :=
+  (float0 gs POINT RATE).andThen h fun pointRate =>
+  let h1 := if F.rateKey pointRate ≠ F.rateKey h.rate then { h with rate := pointRate } else h
+  (int0 gs POINT USED).andThen h1 fun used =>
   let h2 := if intToU64 used ≠ h1.nbPoints then { h1 with nbPoints := intToU64 used } else h1
-  let s2 := { s with hdr := h2 }
   -- sub-frames: from the data when possible, else from the rate ratio
-  let sub : Outcome C3D :=
-    match s.frames with
+  let sub : Outcome Header :=
+    match frames with
     | f0 :: _ =>
       if f0.subs.length ≠ 0 then
-        .ok { s with hdr := if f0.subs.length ≠ h2.nbAnalogByFrame then h2.setNbAnalogByFrame f0.subs.length else h2 }
-      else
-        (byName Group.name s.groups ANALOG).andThen s2 fun ga =>
-        if ga.params.length ≠ 0 then
-          if F.truncNat pointRate = 0 then
-            .ok { s with hdr := if h2.nbAnalogByFrame ≠ 1 then h2.setNbAnalogByFrame 1 else h2 }
-          else
-            (float0 s.groups ANALOG RATE).andThen s2 fun ar =>
-            .ok { s with hdr := if F.ratioNat ar pointRate ≠ h2.nbAnalogByFrame
-                                then h2.setNbAnalogByFrame (F.ratioNat ar pointRate) else h2 }
-        else .ok s2
-    | [] =>
-        (byName Group.name s.groups ANALOG).andThen s2 fun ga =>
-        if ga.params.length ≠ 0 then
-          if F.truncNat pointRate = 0 then
-            .ok { s with hdr := if h2.nbAnalogByFrame ≠ 1 then h2.setNbAnalogByFrame 1 else h2 }
-          else
-            (float0 s.groups ANALOG RATE).andThen s2 fun ar =>
-            .ok { s with hdr := if F.ratioNat ar pointRate ≠ h2.nbAnalogByFrame
-                                then h2.setNbAnalogByFrame (F.ratioNat ar pointRate) else h2 }
-        else .ok s2
-  sub.bind fun s3 =>
-  (byName Group.name s.groups ANALOG).andThen s3 fun ga =>
-  let s4r : Outcome C3D :=
+        .ok (if f0.subs.length ≠ h2.nbAnalogByFrame then h2.setNbAnalogByFrame f0.subs.length else h2)
+      else subFromRates F gs pointRate h2
+    | [] => subFromRates F gs pointRate h2
+  sub.bind fun h3 =>
+  (byName Group.name gs ANALOG).andThen h3 fun ga =>
+  let h4r : Outcome Header :=
     if ga.params.length ≠ 0 then
-      (int0 s.groups ANALOG USED).andThen s3 fun au =>
-      .ok { s3 with hdr := if intToU64 au ≠ s3.hdr.nbAnalogs then s3.hdr.setNbAnalogs (intToU64 au) else s3.hdr }
-    else .ok { s3 with hdr := s3.hdr.setNbAnalogs 0 }
-  s4r.bind fun s4 =>
-  (int0 s.groups POINT FRAMES).andThen s4 fun fr =>
-  if intToU64 fr ≠ s4.hdr.nbFrames then
-    .ok { s4 with hdr := { s4.hdr with firstFrame := 0, lastFrame := subU64 (intToU64 fr) 1 } }
-  else .ok s4
+      (int0 gs ANALOG USED).andThen h3 fun au =>
+      .ok (if intToU64 au ≠ h3.nbAnalogs then h3.setNbAnalogs (intToU64 au) else h3)
+    else .ok (h3.setNbAnalogs 0)
+  h4r.bind fun h4 =>
+  (int0 gs POINT FRAMES).andThen h4 fun fr =>
+  if intToU64 fr ≠ h4.nbFrames then
+    .ok { h4 with firstFrame := 0, lastFrame := subU64 (intToU64 fr) 1 }
+  else .ok h4
+
+def updateHeader (F : FloatOps) (s : C3D) : Outcome C3D :=
+  (updateHeaderH F s.groups s.frames s.hdr).lift fun h => { s with hdr := h }
 
 /-- index of a group / parameter that must exist, as the non-const accessors find it -/
 def gpIdx (gs : List Group) (g p : Bytes) : Res (Nat × Nat) :=
   (groupIdx gs g).bind fun gi => (atIdx gs gi).bind fun grp =>
   (grp.paramIdx p).bind fun pi => .ok (gi, pi)
 
+/-- names the label-like parameters are regenerated from: the first stored frame when there is
+    data, else the existing labels followed by the pending declarations -/
+def pointNames (frames : List Frame) (old new : List Bytes) : List Bytes :=
+  match frames with
+  | f0 :: _ => f0.pts.map (·.name)
+  | [] => old ++ new
+
+def channelNames (frames : List Frame) (old new : List Bytes) : List Bytes :=
+  match frames with
+  | f0 :: _ => (match f0.subs with | sf0 :: _ => sf0.map (·.name) | [] => [])
+  | [] => old ++ new
+
+/-- POINT part of `c3d::updateParameters` (ezc3d.cpp:466-505) -/
+def updatePointParams (gs : List Group) (frames : List Frame) (newPoints : List Bytes) : Outcome (List Group) :=
+  (gpIdx gs POINT FRAMES).andThen gs fun (gP, iFrames) =>
+  (int0 gs POINT FRAMES).andThen gs fun fr =>
+  let g1 := if frames.length ≠ intToU64 fr
+            then modParam gs gP iFrames (·.setInts! [u64ToI32 frames.length]) else gs
+  (strsOf g1 POINT LABELS).andThen g1 fun oldLabels =>
+  let ptNames := pointNames frames oldLabels newPoints
+  (int0 g1 POINT USED).andThen g1 fun used =>
+  if ptNames.length ≠ intToU64 used then
+    (gpIdx g1 POINT USED).andThen g1 fun (_, iUsed) =>
+    let g2 := modParam g1 gP iUsed (·.setInts! [u64ToI32 ptNames.length])
+    (gpIdx g2 POINT LABELS).andThen g2 fun (_, iL) =>
+    (gpIdx g2 POINT DESCRIPTIONS).andThen g2 fun (_, iD) =>
+    (gpIdx g2 POINT UNITS).andThen g2 fun (_, iU) =>
+    let g3 := modParam g2 gP iL (·.setStrs! ptNames)
+    let g4 := modParam g3 gP iD (·.setStrs! (ptNames.map fun _ => []))
+    let g5 := modParam g4 gP iU (·.setStrs! (ptNames.map fun _ => mm))
+    .ok g5
+  else .ok g1
+
+/-- ANALOG part of `c3d::updateParameters` (ezc3d.cpp:507-558) -/
+def updateAnalogParams (gs : List Group) (frames : List Frame) (newAnalogs : List Bytes) : Outcome (List Group) :=
+  (groupIdx gs ANALOG).andThen gs fun gA =>
+  (strsOf gs ANALOG LABELS).andThen gs fun oldALabels =>
+  let chNames := channelNames frames oldALabels newAnalogs
+  (int0 gs ANALOG USED).andThen gs fun aused =>
+  if chNames.length ≠ intToU64 aused then
+    (gpIdx gs ANALOG USED).andThen gs fun (_, iUsed) =>
+    let a1 := modParam gs gA iUsed (·.setInts! [u64ToI32 chNames.length])
+    (gpIdx a1 ANALOG LABELS).andThen a1 fun (_, iL) =>
+    (gpIdx a1 ANALOG DESCRIPTIONS).andThen a1 fun (_, iD) =>
+    let a2 := modParam a1 gA iL (·.setStrs! chNames)
+    let a3 := modParam a2 gA iD (·.setStrs! (chNames.map fun _ => []))
+    (gpIdx a3 ANALOG SCALE).andThen a3 fun (_, iS) =>
+    ((atIdx a3 gA).bind fun g => (atIdx g.params iS).bind fun q => q.asFloat).andThen a3 fun scales =>
+    let a4 := modParam a3 gA iS (·.setFloats! (scales ++ List.replicate (chNames.length - scales.length) 0x3F800000))
+    (gpIdx a4 ANALOG OFFSET).andThen a4 fun (_, iO) =>
+    ((atIdx a4 gA).bind fun g => (atIdx g.params iO).bind fun q => q.asInt).andThen a4 fun offs =>
+    let a5 := modParam a4 gA iO (·.setInts! (offs ++ List.replicate (chNames.length - offs.length) 0))
+    (gpIdx a5 ANALOG UNITS).andThen a5 fun (_, iU) =>
+    ((atIdx a5 gA).bind fun g => (atIdx g.params iU).bind fun q => q.asString).andThen a5 fun units =>
+    let a6 := modParam a5 gA iU (·.setStrs! (units ++ List.replicate (chNames.length - units.length) V))
+    .ok a6
+  else .ok gs
+
 /-- `c3d::updateParameters(newPoints, newAnalogs)` (ezc3d.cpp:458-560). -/
 def updateParameters (F : FloatOps) (s : C3D) (newPoints newAnalogs : List Bytes := []) : Outcome C3D :=
   if s.frames.length ≠ 0 ∧ newPoints.length > 0 then .throw .runtime_error s else
   if s.frames.length ≠ 0 ∧ newAnalogs.length > 0 then .throw .runtime_error s else
-  -- POINT:FRAMES
-  (gpIdx s.groups POINT FRAMES).andThen s fun (gP, iFrames) =>
-  (int0 s.groups POINT FRAMES).andThen s fun fr =>
-  let g1 := if s.frames.length ≠ intToU64 fr
-            then modParam s.groups gP iFrames (·.setInts! [u64ToI32 s.frames.length]) else s.groups
-  let s1 := { s with groups := g1 }
-  -- POINT:USED and the label-like lists
-  (strsOf g1 POINT LABELS).andThen s1 fun oldLabels =>
-  let ptNames : List Bytes := match s.frames with
-    | f0 :: _ => f0.pts.map (·.name)
-    | [] => oldLabels ++ newPoints
-  (int0 g1 POINT USED).andThen s1 fun used =>
-  let pointPart : Outcome C3D :=
-    if ptNames.length ≠ intToU64 used then
-      (gpIdx g1 POINT USED).andThen s1 fun (_, iUsed) =>
-      let g2 := modParam g1 gP iUsed (·.setInts! [u64ToI32 ptNames.length])
-      let s2 := { s with groups := g2 }
-      (gpIdx g2 POINT LABELS).andThen s2 fun (_, iL) =>
-      (gpIdx g2 POINT DESCRIPTIONS).andThen s2 fun (_, iD) =>
-      (gpIdx g2 POINT UNITS).andThen s2 fun (_, iU) =>
-      let g3 := modParam g2 gP iL (·.setStrs! ptNames)
-      let g4 := modParam g3 gP iD (·.setStrs! (ptNames.map fun _ => []))
-      let g5 := modParam g4 gP iU (·.setStrs! (ptNames.map fun _ => mm))
-      .ok { s with groups := g5 }
-    else .ok s1
-  pointPart.bind fun s3 =>
-  -- ANALOG
-  (groupIdx s3.groups ANALOG).andThen s3 fun gA =>
-  (strsOf s3.groups ANALOG LABELS).andThen s3 fun oldALabels =>
-  let chNames : List Bytes := match s.frames with
-    | f0 :: _ => (match f0.subs with | sf0 :: _ => sf0.map (·.name) | [] => [])
-    | [] => oldALabels ++ newAnalogs
-  (int0 s3.groups ANALOG USED).andThen s3 fun aused =>
-  let analogPart : Outcome C3D :=
-    if chNames.length ≠ intToU64 aused then
-      (gpIdx s3.groups ANALOG USED).andThen s3 fun (_, iUsed) =>
-      let a1 := modParam s3.groups gA iUsed (·.setInts! [u64ToI32 chNames.length])
-      let t1 := { s3 with groups := a1 }
-      (gpIdx a1 ANALOG LABELS).andThen t1 fun (_, iL) =>
-      (gpIdx a1 ANALOG DESCRIPTIONS).andThen t1 fun (_, iD) =>
-      let a2 := modParam a1 gA iL (·.setStrs! chNames)
-      let a3 := modParam a2 gA iD (·.setStrs! (chNames.map fun _ => []))
-      let t3 := { s3 with groups := a3 }
-      (gpIdx a3 ANALOG SCALE).andThen t3 fun (_, iS) =>
-      ((atIdx a3 gA).bind fun g => (atIdx g.params iS).bind fun q => q.asFloat).andThen t3 fun scales =>
-      let a4 := modParam a3 gA iS (·.setFloats! (scales ++ List.replicate (chNames.length - scales.length) 0x3F800000))
-      let t4 := { s3 with groups := a4 }
-      (gpIdx a4 ANALOG OFFSET).andThen t4 fun (_, iO) =>
-      ((atIdx a4 gA).bind fun g => (atIdx g.params iO).bind fun q => q.asInt).andThen t4 fun offs =>
-      let a5 := modParam a4 gA iO (·.setInts! (offs ++ List.replicate (chNames.length - offs.length) 0))
-      let t5 := { s3 with groups := a5 }
-      (gpIdx a5 ANALOG UNITS).andThen t5 fun (_, iU) =>
-      ((atIdx a5 gA).bind fun g => (atIdx g.params iU).bind fun q => q.asString).andThen t5 fun units =>
-      let a6 := modParam a5 gA iU (·.setStrs! (units ++ List.replicate (chNames.length - units.length) V))
-      .ok { s3 with groups := a6 }
-    else .ok s3
-  analogPart.bind fun s4 => updateHeader F s4
+  ((updatePointParams s.groups s.frames newPoints).bind fun g =>
+    updateAnalogParams g s.frames newAnalogs).lift (fun g => { s with groups := g })
+  |>.bind fun s1 => updateHeader F s1
 
 /-- `c3d::parameter(groupName, p)` (ezc3d.cpp:263-284) -/
 def C3D.parameter (F : FloatOps) (s : C3D) (groupName : Bytes) (p : Param) : Outcome C3D :=
@@ -166,7 +173,18 @@ def dataFrame (frames : List Frame) (f : Frame) (idx : Nat) : Res (List Frame) :
   else if idx ≥ frames.length ∧ idx + 1 > maxFrames then .throw .length_error
   else .ok (setAt {} frames idx f)
 
-/-- `c3d::frame(f, idx)` (ezc3d.cpp:296-332) -/
+/-- the channel-count guard of `c3d::frame` (ezc3d.cpp:319-327) -/
+def chanMismatch (f : Frame) (nAnalogs nAnalogByFrame : Nat) : Bool :=
+  match f.subs with
+  | sf0 :: _ => !(nAnalogs == 0 && nAnalogByFrame == 0) && sf0.length != nAnalogs
+  | [] => false
+
+/-- the position check of `c3d::frame`: some point sits at the position of a label with another name -/
+def outOfOrder : List Bytes → List Point → Bool
+  | l :: ls, p :: ps => p.name != l || outOfOrder ls ps
+  | _, _ => false
+
+/-- `c3d::frame(f, idx)` (ezc3d.cpp:296-336) -/
 def C3D.frame (F : FloatOps) (s : C3D) (f : Frame) (idx : Nat := SIZE_MAX) : Outcome C3D :=
   (int0 s.groups POINT USED).andThen s fun used =>
   if intToU64 used ≠ 0 ∧ f.pts.length ≠ intToU64 used then .throw .runtime_error s else
@@ -177,20 +195,17 @@ def C3D.frame (F : FloatOps) (s : C3D) (f : Frame) (idx : Nat := SIZE_MAX) : Out
   (if f.subs.length > 0 then (float0 s.groups ANALOG RATE).map isZeroF else .ok false).andThen s fun az =>
   if az then .throw .runtime_error s else
   (int0 s.groups ANALOG USED).andThen s fun aused =>
-  let chanBad : Bool := match f.subs with
-    | sf0 :: _ => !(intToU64 aused == 0 && s.hdr.nbAnalogByFrame == 0) && sf0.length != intToU64 aused
-    | [] => false
-  if chanBad then .throw .runtime_error s else
+  if chanMismatch f (intToU64 aused) s.hdr.nbAnalogByFrame then .throw .runtime_error s else
+  if outOfOrder labels f.pts then .throw .invalid_argument s else
   (dataFrame s.frames f idx).andThen s fun frames' =>
   updateParameters F { s with frames := frames' }
 
-/-- validation pass of `c3d::point(frames)`: first failing column decides the exception -/
-def checkPointCols (labels : List Bytes) (frames : List Frame) : List (Nat × Point) → Option Exc
-  | [] => none
-  | (idx, p) :: rest =>
-    if labels.contains p.name then some .invalid_argument
-    else if frames.any (fun f => f.pts.length ≤ idx) then some .out_of_range
-    else checkPointCols labels frames rest
+/-- validation pass of `c3d::point(frames)`: first every new name against the existing labels, then
+    every frame must hold every new column -/
+def checkPointCols (labels : List Bytes) (frames : List Frame) (cols : List (Nat × Point)) : Option Exc :=
+  if cols.any (fun c => labels.contains c.2.name) then some .invalid_argument
+  else if cols.any (fun c => frames.any (fun f => f.pts.length ≤ c.1)) then some .out_of_range
+  else none
 
 def enum (l : List α) : List (Nat × α) := (List.range l.length).zip l
 
@@ -217,15 +232,14 @@ def C3D.point (F : FloatOps) (s : C3D) (name : Bytes) : Outcome C3D :=
     s.pointCols F (List.replicate s.frames.length fr)
   else updateParameters F s [name] []
 
-def checkAnalogCols (labels : List Bytes) (stored frames : List Frame) (nsf : Nat) :
-    List (Nat × Channel) → Option Exc
-  | [] => none
-  | (idx, c) :: rest =>
-    if labels.contains c.name then some .invalid_argument
-    else if stored.any (fun f => f.subs.length < nsf) then some .out_of_range
-    else if frames.any (fun f => f.subs.length < nsf ∨ (f.subs.take nsf).any (fun sf => sf.length ≤ idx))
-      then some .out_of_range
-    else checkAnalogCols labels stored frames nsf rest
+def checkAnalogCols (labels : List Bytes) (stored frames : List Frame) (nsf : Nat)
+    (cols : List (Nat × Channel)) : Option Exc :=
+  if cols.any (fun c => labels.contains c.2.name) then some .invalid_argument
+  else if cols.isEmpty then none
+  else if nsf > 0 ∧ stored.any (fun f => f.subs.length < nsf) then some .out_of_range
+  else if cols.any (fun c => frames.any (fun f => f.subs.length < nsf ∨ (f.subs.take nsf).any (fun sf => sf.length ≤ c.1)))
+    then some .out_of_range
+  else none
 
 /-- `c3d::analog(const std::vector<Frame>&)` (ezc3d.cpp:396-431) -/
 def C3D.analogCols (F : FloatOps) (s : C3D) (frames : List Frame) : Outcome C3D :=
